@@ -1,3 +1,4 @@
 /- Aggregate: C07 structural round trips (C07.lean) and closeness of floating-point values through JSON (C07Float.lean, over the C12 error bounds). -/
 import AJ.Props.C07
 import AJ.Props.C07Float
+import AJ.Props.C07Cross
